@@ -68,8 +68,10 @@ pub fn gen_cmd(r: &mut Rng) -> Vec<Vec<u8>> {
         20 => { let n = 1 + r.below(3); let mut c = vec![v(b"DEL")]; for _ in 0..n { c.push(v(key(r))); } c }
         21 => { let n = 1 + r.below(3); let mut c = vec![v(b"EXISTS")]; for _ in 0..n { c.push(v(key(r))); } c }
         22 => vec![v(b"TYPE"), v(k)],
-        23 => vec![v(b"RENAME"), v(k), v(key(r))],
-        24 => vec![v(b"RENAMENX"), v(k), v(key(r))],
+        // one time in three the destination lives in the source's engine shard (FNV-1a mod 16: k1/ka, k2/kb):
+        // the same-shard and the cross-shard path of rename() are different code
+        23 => { let dst = match (r.chance(1, 3), k) { (true, b"k1") => &b"ka"[..], (true, b"ka") => b"k1", (true, b"k2") => b"kb", (true, b"kb") => b"k2", _ => key(r) }; vec![v(b"RENAME"), v(k), v(dst)] }
+        24 => { let dst = match (r.chance(1, 3), k) { (true, b"k1") => &b"ka"[..], (true, b"ka") => b"k1", (true, b"k2") => b"kb", (true, b"kb") => b"k2", _ => key(r) }; vec![v(b"RENAMENX"), v(k), v(dst)] }
         25 => vec![v(b"KEYS"), v(pick(r, PATTERNS))],
         26 => vec![v(b"DBSIZE")],
         27 => vec![v(b"RANDOMKEY")],
@@ -109,6 +111,26 @@ pub fn dump_ops(conn: i64, ops: &mut Vec<Vec<Tok>>) {
 pub fn gen(seed: u64, n: usize, _tier: &str) -> Vec<Case> {
     let mut r = Rng::new(seed);
     let mut cases = vec![];
+    // RENAME / RENAMENX over every ordered pair of pool keys (same engine shard and different shards,
+    // src = dst included), destination absent / present / present with a deadline, source with and
+    // without a deadline: reply, destination value, both TTLs, source gone, key count
+    for (ci, nx) in [false, true].iter().enumerate() {
+        let mut ops = vec![conn_op(1)];
+        let pool: Vec<&[u8]> = KEYS.iter().filter(|k| !k.is_empty()).cloned().collect();
+        for (a, src) in pool.iter().enumerate() {
+            for (b, dst) in pool.iter().enumerate() {
+                let variant = (a * 7 + b * 3 + ci) % 4;
+                ops.push(cmd_op(1, &[b"FLUSHDB"]));
+                if variant & 1 == 1 { ops.push(cmd_op(1, &[b"SET", src, b"src-value", b"EX", b"1000"])); } else { ops.push(cmd_op(1, &[b"SET", src, b"src-value"])); }
+                if variant >= 2 && a != b { ops.push(cmd_op(1, &[b"SET", dst, b"dst-value", b"PX", b"500000"])); }
+                else if (a + b) % 3 == 0 && a != b { ops.push(cmd_op(1, &[b"SET", dst, b"dst-value"])); }
+                ops.push(cmd_op(1, &[if *nx { &b"RENAMENX"[..] } else { &b"RENAME"[..] }, src, dst]));
+                ops.push(cmd_op(1, &[b"GET", dst])); ops.push(cmd_op(1, &[b"TTL", dst]));
+                ops.push(cmd_op(1, &[b"EXISTS", src])); ops.push(cmd_op(1, &[b"DBSIZE"]));
+            }
+        }
+        cases.push(Case { id: format!("ren-{}", ci), ops, outs: vec![] });
+    }
     for id in 0..n {
         let mut ops = vec![conn_op(1)];
         if WITH_OTHER_TYPES {
